@@ -2,6 +2,7 @@ package analysis
 
 import (
 	"encoding/json"
+	"fmt"
 	"go/types"
 	"reflect"
 	"sort"
@@ -111,4 +112,38 @@ func HC09_naming() {
 		vfAssert(f.JSONName() == key, "C09/key-is-the-one-encoding-json-uses")
 		vfObserve("key", f.JSONName())
 	}
+}
+
+// HC09_sameTagTwice: the key of a field depends on the field alone: fields carrying byte-identical
+// tags without a json name (options only, an empty name, tags of other keys), or the same explicit
+// name, each get their own Go name / that name, in whatever order they are asked.
+func HC09_sameTagTwice() {
+	tags := []string{`json:",omitempty"`, `json:""`, `gomacro-opaque:"typescript"`, `json:",string" xml:"x"`, `json:"same"`, ``}
+	tag := tags[vfChoice("tag", len(tags))]
+	pkg := types.NewPackage("example.com/p", "p")
+	n := 2 + vfChoice("fields", 2)
+	var fields []StructField
+	var names []string
+	for i := 0; i < n; i++ {
+		name := "F" + vfString(fmt.Sprint("name", i), 1, 1, "alnum")
+		for _, o := range names {
+			vfAssume(o != name)
+		}
+		names = append(names, name)
+		fields = append(fields, StructField{Type: Int, Field: types.NewField(0, pkg, name, types.Typ[types.Int], false), Tag: reflect.StructTag(tag)})
+	}
+	backwards := vfChoice("backwards", 2) == 1
+	ok := true
+	for k := range fields {
+		i := k
+		if backwards {
+			i = n - 1 - k
+		}
+		want := names[i]
+		if tag == `json:"same"` {
+			want = "same"
+		}
+		ok = vfAnd(ok, fields[i].JSONName() == want)
+	}
+	vfAssert(ok, "C09/key-is-the-one-encoding-json-uses")
 }
